@@ -311,7 +311,10 @@ func (fe *failEngine) notFoundFiltered(fn *ssa.Function, val ssa.Value, ret *ssa
 // ---------------------------------------------------------------------------
 // Panic-like origins in one function, with guard recognition.
 
-type guardInfo struct{ guarded bool; how string }
+type guardInfo struct {
+	guarded bool
+	how     string
+}
 
 // dominating conditions: yields (rel, truth) for every branch condition known at block b.
 func dominatingConds(b *ssa.BasicBlock, tm *termer, f func(rel *Term, truth bool) bool) {
